@@ -256,10 +256,21 @@ pub fn gen(rng: &mut Rng, focus: Focus) -> ClientScn {
         Focus::Extreme => rng.below(3) as u8,
         _ => 0,
     };
+    let mut faults = vec![];
+    if focus == Focus::Faults {
+        use crate::transport::{FaultAt, Op2};
+        let op = *rng.pick(&[Op2::Ready, Op2::Send, Op2::Flush, Op2::Close, Op2::Next, Op2::NextEof, Op2::Send, Op2::Next]);
+        let k = match op {
+            Op2::Close => 1,
+            Op2::Send => rng.range(1, 2 * n_calls as u64 + 1) as u32,
+            _ => rng.range(1, 40) as u32,
+        };
+        faults.push(FaultAt { op, k });
+    }
     ClientScn {
         max_in_flight,
         pending_buf,
-        link: LinkCfg { cap, coupled, faults: vec![] },
+        link: LinkCfg { cap, coupled, faults },
         stalls,
         handles,
         calls,
@@ -873,7 +884,10 @@ pub fn check(scn: &ClientScn, log: &[Ev], horizon_reached: bool, sim: &Sim) -> V
                 samples_at_idle.push((e.seq, last_sample.0, last_sample.1));
             }
             EvKind::TOp { link: 0, op, res, item } => {
-                if *res == Res::Err && *op != Op::Send && first_fail.is_none() {
+                // a failed write of a request only fails that call; a failed write of a
+                // cancellation is terminal, like every other failed operation
+                let terminal = *res == Res::Err && (*op != Op::Send || matches!(item, Some(Item::Cancel { .. })));
+                if terminal && first_fail.is_none() {
                     first_fail = Some((e.seq, *op));
                 }
                 if *op == Op::Close {
@@ -955,7 +969,10 @@ pub fn check(scn: &ClientScn, log: &[Ev], horizon_reached: bool, sim: &Sim) -> V
         let Some((inv_seq, _)) = c.invoke else { continue };
         let _ = inv_seq;
         let first_reply = c.id.and_then(|id| {
-            let rs = c.r_send.unwrap().0;
+            let (rs, _, ok) = c.r_send.unwrap();
+            if !ok {
+                return None;
+            }
             nexts.iter().find(|x| x.2 == id && x.0 > rs)
         });
         if let Some((rseq, rt, outcome)) = &c.resolve {
